@@ -2,7 +2,7 @@
    value, member-is-DistanceUnit.Angstrom *)
 From Coq Require Import List ZArith QArith String.
 Import ListNotations.
-Open Scope string_scope.
+Local Open Scope string_scope.
 Definition units : list (string * Q * bool) := [
   ("A", (Qmake (1)%Z 1%positive), true);
   ("Angstrom", (Qmake (1)%Z 1%positive), true);
